@@ -395,7 +395,8 @@ func (ex *Exec) execBlock(fr *Frame, b *ssa.BasicBlock, st *State, pred *ssa.Bas
 					if label == "" {
 						label = fmt.Sprintf("S%d.%d", li.ord, i+1)
 					}
-					ex.oblige(fr, st, "loop-step", label, token.NoPos, t)
+					// proved here, then assumed: the invariants' preservation may build on it (stepping stone)
+					ex.check(fr, st, "loop-step", label, token.NoPos, t)
 				}
 			}
 			// back edge: invariants must be preserved
